@@ -12,6 +12,16 @@ for line in open("/verif/properties.jsonl"):
         break
 else:
     sys.exit("unknown property")
+import glob, os
+sites = []
+for mf in sorted(glob.glob("/verif/seeded/%s-*/meta.json" % pid)):
+    try:
+        sites.append(json.load(open(mf)).get("site", ""))
+    except Exception:
+        pass
+excl = ""
+if sites:
+    excl = "\n\nSITES ALREADY USED by earlier changes (choose OTHER sites and other mechanisms): " + "; ".join(x for x in sites if x) + ".\nDo NOT use `git stash` (stashes are shared between worktrees); undo with `git checkout -- .` only, and never touch any directory other than your worktree."
 print(f"""You are helping to evaluate a verification effort for the Go library hyperledger-labs/go-perun (module perun.network/go-perun; Go implementation of the Perun two-party state channel protocols: channel state machine, proposal/update/dispute protocols, watcher, persistence and wire codecs). Your job is to play the role of a developer who makes a plausible but WRONG change to the library: a change that breaks one specific semantic property while the code still compiles and the library's existing test suite still passes.
 
 Your working copy is a private git worktree of the repository at {wt} (work ONLY there; do not touch /repo, do not look at or use anything under /verif; there is no network). Every shell call needs: export GOFLAGS=-mod=mod GOPROXY=off GOSUMDB=off GOTOOLCHAIN=local. Go 1.23 is installed. The existing test suite is run with `cd {wt} && go test -mod=mod -vet=off -count=1 ./...` (about 20 s; the package wire/net/libp2p needs a network and fails already without any change - ignore it; wire/net/simple TestBus is known to be flaky).
@@ -33,4 +43,4 @@ For each change write, inside the worktree:
  - {wt}/seedN/meta.json: {{"property": "{p['id']}", "summary": "<one sentence: what was changed>", "site": "<file:function>", "needs": "<what it needs in order to manifest>", "why_tests_pass": "<why the existing suite does not notice>", "demo_placement": "<dir/file>", "demo_cmd": "<go test command>", "ran": "<what you ran and observed, both ways>"}}.
 Leave the worktree CLEAN at the end (git checkout -- . ; remove the demo test from the package directories; only the seed1/ seed2/ directories remain, untracked). Do not commit.
 
-Work method: read the anchored code first, understand what makes the property hold (which checks, locks, orderings), then choose the two sites. Prefer violations of the *core* of the statement over violations of side clauses. Verify everything you claim by running it. Your final message: for each seed, the summary, the site, what it needs to manifest, and the observed results of demo and suite (both ways).""")
+Work method: read the anchored code first, understand what makes the property hold (which checks, locks, orderings), then choose the two sites. Prefer violations of the *core* of the statement over violations of side clauses. Verify everything you claim by running it. Your final message: for each seed, the summary, the site, what it needs to manifest, and the observed results of demo and suite (both ways).""" + excl)
